@@ -1,2 +1,839 @@
-// Package c04: implementation-side ops, generators and oracles for property C04.
+// Package c04: the SQL proxy stores only protected forms and restores originals on read (C04).
+//
+// Sessions run a fake PostgreSQL client against a fake database through the REAL proxy objects
+// (proxyFactory.New / PgProxy with both proxy goroutines) over net.Pipe. Statements are generated
+// from structured descriptions, so the harness knows which cells are protected without parsing.
 package c04
+
+import (
+	"bytes"
+	"encoding/binary"
+	"fmt"
+	"sort"
+	"strings"
+
+	"verifharness/internal/c04/fakepg"
+	"verifharness/internal/core"
+	env "verifharness/internal/envops"
+)
+
+type shadowRow struct {
+	id   int
+	vals map[string][]byte // plaintext per column; missing key = NULL
+}
+
+type caseState struct {
+	r       *core.Run
+	rd      *core.Rand
+	sch     Schema
+	kv      *env.KV
+	w       *World
+	a       *Sess
+	shadow  map[string][]*shadowRow
+	nextID  int
+	secrets [][]byte // every plaintext written into a protected column
+	publics [][]byte // values written into uncovered columns (must arrive unchanged)
+	stmtSeq int
+	key     string
+	// lastItems: the per-column settings the proxy's session currently remembers (set by the last SELECT
+	// and by the last RETURNING that delivered rows)
+	lastItems []*Setting
+}
+
+func kvToks(kv *env.KV) string { return kv.Tokens() }
+
+// scanSecrets checks that no plaintext written to a protected column shows up in the bytes the database received.
+func (cs *caseState) scanSecrets(what string) {
+	in := cs.w.DB.In.Bytes()
+	for _, v := range cs.secrets {
+		if len(v) < 8 {
+			continue
+		}
+		for fi, f := range Forms(v) {
+			if bytes.Contains(in, f) {
+				cs.r.Fail("plaintext-at-database", fmt.Sprintf("%s: plaintext %x written to a protected column reached the database (form %d)", what, v, fi))
+				return
+			}
+		}
+	}
+}
+
+func clientDecode(oid uint32, binaryFmt bool, v []byte) ([]byte, bool) {
+	if oid == 17 && !binaryFmt {
+		b, err := fakepg.DecodeByteaText(v)
+		return b, err == nil
+	}
+	if oid == 23 && binaryFmt && len(v) == 4 {
+		return []byte(fmt.Sprint(int32(binary.BigEndian.Uint32(v)))), true
+	}
+	return v, true
+}
+
+// genCellValue picks a value for a column and its literal / parameter representations.
+type cellPlan struct {
+	col    *Col
+	plain  []byte // nil = NULL
+	null   bool
+	lit    Cell  // literal spelling
+	ptext  []byte // text-format parameter
+	pbin   []byte // binary-format parameter
+}
+
+func (cs *caseState) planCell(c *Col, id int) cellPlan {
+	rd := cs.rd
+	p := cellPlan{col: c}
+	if c.Name == "id" {
+		s := fmt.Sprint(id)
+		p.plain = []byte(s)
+		p.lit = Cell{K: 'N', B: []byte(s)}
+		p.ptext = []byte(s)
+		p.pbin = make([]byte, 4)
+		binary.BigEndian.PutUint32(p.pbin, uint32(id))
+		return p
+	}
+	if rd.Chance(8) {
+		p.null = true
+		p.lit = Cell{K: 'Z'}
+		return p
+	}
+	textual := c.Type == fakepg.Text || (c.Set != nil && c.Set.DType == "str")
+	v := marker(rd, textual)
+	if rd.Chance(3) {
+		v = []byte{}
+	}
+	p.plain = v
+	if textual {
+		p.lit = Cell{K: 'L', B: v, Spell: rd.Intn(2)}
+		p.ptext, p.pbin = v, v
+	} else {
+		t := textForm(rd, v)
+		p.lit = Cell{K: 'L', B: t, Spell: rd.Intn(2)}
+		if rd.Chance(30) {
+			p.lit.Cast = "bytea"
+		}
+		p.ptext, p.pbin = textForm(rd, v), v
+	}
+	return p
+}
+
+// round is one statement sent by the client.
+type round struct {
+	st       *Stmt
+	extended bool
+	params   []param
+	rfmt     []int16
+	named    string
+}
+
+func (cs *caseState) send(s *Sess, rd round) ([]*fakepg.Result, error) {
+	sql := rd.st.SQL()
+	if !rd.extended {
+		return s.C.Simple(sql)
+	}
+	vals, fm := extParams(rd.params)
+	return s.C.Extended(fakepg.Ext{Parse: true, Name: rd.named, SQL: sql, Bind: true, Params: vals, PFmt: fm, RFmt: rd.rfmt, DescribeP: cs.rd.Bool(), Execute: true})
+}
+
+// perms enumerates the orders in which the protected parameters may have drawn randomness.
+func perms(xs []int) [][]int {
+	if len(xs) <= 1 {
+		return [][]int{append([]int{}, xs...)}
+	}
+	var out [][]int
+	for i := range xs {
+		rest := append(append([]int{}, xs[:i]...), xs[i+1:]...)
+		for _, p := range perms(rest) {
+			out = append(out, append([]int{xs[i]}, p...))
+		}
+	}
+	return out
+}
+
+func intsTok(xs []int) string {
+	var out []string
+	for _, x := range xs {
+		out = append(out, fmt.Sprint(x))
+	}
+	return orNone(out, ",")
+}
+
+// correspond runs the stateless ops for a statement (implementation in a fresh one-statement world, and the model).
+func (cs *caseState) correspond(rd round, rnd []byte) {
+	r := cs.r
+	tok := rd.st.Token()
+	sch := cs.sch.Token()
+	proto := "q"
+	if rd.extended {
+		proto = "p"
+	}
+	r.Do(fmt.Sprintf("C04.stmt %s %s %s %s %s", proto, sch, kvToks(cs.kv), tok, core.Hex(rnd[:min(len(rnd), 2048)])))
+	if rd.extended && len(rd.params) > 0 {
+		// which parameters are protected (from the generator's knowledge) → candidate orders
+		var prot []int
+		if t := cs.sch.tab(rd.st.Table); t != nil && t.Configured && (rd.st.Kind == 'I' || rd.st.Kind == 'U') {
+			seen := map[int]bool{}
+			mark := func(col string, c Cell) {
+				if cc := t.col(col); cc != nil && cc.Set != nil && c.K == 'P' && !seen[c.N-1] {
+					seen[c.N-1] = true
+					prot = append(prot, c.N-1)
+				}
+			}
+			if rd.st.Kind == 'I' {
+				names := rd.st.Cols
+				if len(names) == 0 && !t.NoColumns {
+					for _, c := range t.Cols {
+						names = append(names, c.Name)
+					}
+				}
+				for _, row := range rd.st.Rows {
+					if len(row) != len(names) {
+						continue
+					}
+					for j, c := range row {
+						mark(names[j], c)
+					}
+				}
+			} else {
+				for j, c := range rd.st.SetV {
+					mark(rd.st.Sets[j], c)
+				}
+			}
+		}
+		base := fmt.Sprintf("C04.bind %s %s %s %s", sch, kvToks(cs.kv), tok, paramsTok(rd.params))
+		tail := core.Hex(rnd[:min(len(rnd), 2048)])
+		first := fmt.Sprintf("%s %s %s", base, intsTok(prot), tail)
+		impl := r.Impl(first)
+		line := first
+		found := len(prot) <= 1
+		if len(prot) > 1 && len(prot) <= 5 {
+			for _, p := range perms(prot) {
+				l := fmt.Sprintf("%s %s %s", base, intsTok(p), tail)
+				if r.ModelOnly(l) == impl {
+					line, found = l, true
+					break
+				}
+			}
+		}
+		// the Go code encrypts the parameters in map-iteration order: with more than five protected
+		// parameters the order is not searched for
+		if found || len(prot) <= 5 {
+			r.Diff(line, impl)
+		}
+		r.Do(fmt.Sprintf("C04.plan %s %s %d", sch, tok, len(rd.params)))
+	}
+}
+
+// expectRows computes, from the shadow tables, what the owner must read for a row-returning statement.
+func (cs *caseState) targetCols(t *Tab, alias string, items []string) []*Col {
+	var out []*Col
+	for _, it := range items {
+		switch {
+		case it == "*" || strings.HasSuffix(it, ".*"):
+			for i := range t.Cols {
+				out = append(out, &t.Cols[i])
+			}
+		case it == "?":
+			out = append(out, nil)
+		default:
+			name := it
+			if i := strings.IndexByte(it, '.'); i >= 0 {
+				name = it[i+1:]
+			}
+			out = append(out, t.col(name))
+		}
+	}
+	return out
+}
+
+func run(r *core.Run) {
+	r.Rule = "sessions of 1–12 statements generated FROM structured descriptions (INSERT with/without column list, 1–3 rows, casts, NULLs; UPDATE; SELECT star/list/qualified/alias; RETURNING), printed in several spellings, sent over the simple or the extended protocol (text and binary parameters and results) by a fake client through the real proxyFactory.New/PgProxy to a fake database; schemas of 1–4 tables with plain, AcraStruct and AcraBlock columns (untyped, bytes, str) and an unconfigured table; non-trivial = a statement that writes or reads a protected column; distinct by schema+statement tokens; plus value-level codec ops, protocol-state scripts (pipelining, errors, Sync), generated INSERT/UPDATE statements through the MySQL query encryptor, and the regression corpus of the three repaired defects"
+	corpus(r)
+	valueOps(r)
+	pendingOps(r)
+	mysqlOps(r)
+	n := r.N(40, 1500)
+	for i := 0; i < n; i++ {
+		sessionCase(r, i)
+	}
+}
+
+func sessionCase(r *core.Run, idx int) {
+	rd := r.Rand
+	cs := &caseState{r: r, rd: rd, sch: genSchema(rd), shadow: map[string][]*shadowRow{}, nextID: 1}
+	cs.kv = env.NewKV(rd, 1, 1)
+	ks := &env.TKS{Clients: map[string]*env.KV{"alice": cs.kv}}
+	w, err := NewWorld(cs.sch.YAML(), ks, cs.sch.Defs(), rd.Bytes(1<<15))
+	if err != nil {
+		panic("harness: " + err.Error() + "\n" + cs.sch.YAML())
+	}
+	cs.w = w
+	defer w.Close()
+	cs.key = fmt.Sprintf("sess-%d", idx)
+	a, err := w.Open("alice")
+	if err != nil {
+		panic("harness: open " + err.Error())
+	}
+	cs.a = a
+	bob, err := w.Open("bob")
+	if err != nil {
+		panic("harness: open " + err.Error())
+	}
+	nst := 1 + rd.Intn(12)
+	for k := 0; k < nst; k++ {
+		t := core.Pick(rd, cs.sch)
+		switch x := rd.Intn(100); {
+		case x < 45 || len(cs.shadow[t.Name]) == 0:
+			cs.doInsert(t)
+		case x < 60:
+			cs.doUpdate(t)
+		default:
+			cs.doSelect(t, bob)
+		}
+		if r.Thorough() == false && len(r.Failures) > 3 {
+			break
+		}
+	}
+	// the queue of pending statements is empty when nothing is in flight
+	if pq := pendingOf(a); len(pq) != 0 {
+		r.Begin(cs.key+"-pending", true, "case:pending-quiescent")
+		r.Fail("pending-not-empty", fmt.Sprintf("pending-query queue not empty after the last ReadyForQuery: %v", pq))
+	}
+	// final sweep: every table, read by the owner and by the keyless client
+	for _, t := range cs.sch {
+		if len(cs.shadow[t.Name]) > 0 {
+			cs.doSelectStmt(t, &Stmt{Kind: 'S', Table: t.Name, Ret: []string{"*"}}, false, nil, bob)
+		}
+	}
+	cs.scanSecrets("end of session")
+}
+
+func pendingOf(s *Sess) []string {
+	type pv interface{ VerifPendingQueries() []string }
+	if p, ok := s.Proxy.(pv); ok {
+		return p.VerifPendingQueries()
+	}
+	panic("harness: proxy without VerifPendingQueries (build with -tags verif)")
+}
+
+func (cs *caseState) styled(st *Stmt) *Stmt {
+	st.Upper = cs.rd.Bool()
+	st.Wide = cs.rd.Chance(30)
+	return st
+}
+
+func (cs *caseState) begin(st *Stmt, covered bool, tags ...string) {
+	cs.stmtSeq++
+	cs.r.Begin(cs.sch.Token()+"|"+st.Token(), covered, tags...)
+}
+
+// write executes a generated INSERT/UPDATE, runs the correspondence ops and the write-side oracles.
+func (cs *caseState) write(st *Stmt, plans [][]cellPlan, covered bool, ext bool, params []param, tags ...string) ([]*fakepg.Result, []int16, bool) {
+	r := cs.r
+	cs.begin(st, covered, tags...)
+	rd := round{st: st, extended: ext, params: params}
+	if ext {
+		rd.named = core.Pick(cs.rd, []string{"", "s1", "s2"})
+		if len(st.Ret) > 0 && cs.rd.Bool() {
+			rd.rfmt = []int16{int16(cs.rd.Intn(2))}
+		}
+	}
+	for _, row := range plans {
+		for _, p := range row {
+			if p.null || p.col.Name == "id" {
+				continue
+			}
+			if p.col.Set != nil {
+				cs.secrets = append(cs.secrets, p.plain)
+			}
+		}
+	}
+	p0 := cs.w.Rnd.Pos()
+	cin0, cout0 := cs.a.C.Marks()
+	_ = cin0
+	din0 := cs.w.DB.In.Len()
+	rs, err := cs.send(cs.a, rd)
+	if err != nil {
+		r.Fail("session-broken", fmt.Sprintf("statement %q: the session broke: %v (panic: %v)", st.SQL(), err, cs.a.Panic))
+		return nil, nil, false
+	}
+	for _, x := range rs {
+		if x.Err != "" {
+			r.Fail("statement-rejected", fmt.Sprintf("statement %q was rejected by the database after the proxy (%s %s); forwarded: %q", st.SQL(), x.Err, x.ErrMsg, lastSQL(cs.w.DB)))
+			return nil, nil, false
+		}
+	}
+	rnd := cs.w.Rnd.data[p0:]
+	cs.correspond(rd, rnd)
+	// uncovered statements travel byte-identical
+	if t := cs.sch.tab(st.Table); t != nil && !t.Configured {
+		_, cout1 := cs.a.C.Marks()
+		sent := cs.a.C.Out.Bytes()[cout0:cout1]
+		got := cs.w.DB.In.Bytes()[din0:]
+		r.Check(bytes.Equal(sent, got), "uncovered-statement-altered", fmt.Sprintf("statement on an unconfigured table reached the database altered: %q", st.SQL()))
+	}
+	cs.scanSecrets(st.SQL())
+	return rs, rd.rfmt, true
+}
+
+func lastSQL(db *fakepg.DB) string {
+	if len(db.Log) == 0 {
+		return ""
+	}
+	return db.Log[len(db.Log)-1].SQL
+}
+
+func (cs *caseState) doInsert(t *Tab) {
+	rd := cs.rd
+	st := cs.styled(&Stmt{Kind: 'I', Table: t.Name})
+	cols := make([]*Col, 0, len(t.Cols))
+	if rd.Chance(65) || (t.Configured && t.NoColumns) {
+		// explicit column list: id first or last, a random subset of the others in random order
+		var others []*Col
+		for i := range t.Cols[1:] {
+			if rd.Chance(75) {
+				others = append(others, &t.Cols[1+i])
+			}
+		}
+		for i := len(others) - 1; i > 0; i-- {
+			j := rd.Intn(i + 1)
+			others[i], others[j] = others[j], others[i]
+		}
+		if rd.Bool() {
+			cols = append(append(cols, &t.Cols[0]), others...)
+		} else {
+			cols = append(append(cols, others...), &t.Cols[0])
+		}
+		for _, c := range cols {
+			st.Cols = append(st.Cols, c.Name)
+		}
+	} else {
+		for i := range t.Cols {
+			cols = append(cols, &t.Cols[i])
+		}
+	}
+	ext := rd.Chance(45)
+	nrows := 1 + rd.Intn(3)
+	var plans [][]cellPlan
+	var params []param
+	covered := false
+	for i := 0; i < nrows; i++ {
+		id := cs.nextID
+		cs.nextID++
+		var row []Cell
+		var prow []cellPlan
+		for _, c := range cols {
+			p := cs.planCell(c, id)
+			prow = append(prow, p)
+			covered = covered || (c.Set != nil && !p.null)
+			if ext && !p.null && rd.Chance(70) {
+				bin := rd.Chance(40)
+				pp := param{bin: bin, data: p.ptext}
+				if bin {
+					pp.data = p.pbin
+				}
+				params = append(params, pp)
+				row = append(row, Cell{K: 'P', N: len(params)})
+			} else {
+				row = append(row, p.lit)
+			}
+		}
+		st.Rows = append(st.Rows, row)
+		plans = append(plans, prow)
+	}
+	if rd.Chance(25) {
+		st.Ret = cs.genTargets(t, "", true)
+	}
+	rs, rfmt, ok := cs.write(st, plans, covered, ext, params, "stmt:insert", protoTag(ext))
+	if !ok {
+		return
+	}
+	for _, prow := range plans {
+		sr := &shadowRow{vals: map[string][]byte{}}
+		for _, p := range prow {
+			if p.col.Name == "id" {
+				sr.id = core.Atoi(string(p.plain))
+			}
+			if !p.null {
+				sr.vals[p.col.Name] = p.plain
+			}
+		}
+		cs.shadow[t.Name] = append(cs.shadow[t.Name], sr)
+	}
+	if len(st.Ret) > 0 {
+		n := len(cs.shadow[t.Name])
+		cs.checkOwnerRows(t, "", st.Ret, rs, cs.shadow[t.Name][n-len(plans):], st.SQL(), rfmt)
+	}
+}
+
+func protoTag(ext bool) string {
+	if ext {
+		return "proto:extended"
+	}
+	return "proto:simple"
+}
+
+func (cs *caseState) genTargets(t *Tab, alias string, allowExpr bool) []string {
+	rd := cs.rd
+	q := t.Name
+	if alias != "" {
+		q = alias
+	}
+	switch rd.Intn(4) {
+	case 0:
+		return []string{"*"}
+	case 1:
+		return []string{q + ".*"}
+	}
+	var out []string
+	for _, c := range t.Cols {
+		if rd.Chance(70) {
+			if rd.Chance(35) {
+				out = append(out, q+"."+c.Name)
+			} else {
+				out = append(out, c.Name)
+			}
+		}
+	}
+	if allowExpr && rd.Chance(15) {
+		out = append(out, "?")
+	}
+	if len(out) == 0 {
+		out = []string{t.Cols[len(t.Cols)-1].Name}
+	}
+	return out
+}
+
+func (cs *caseState) doUpdate(t *Tab) {
+	rd := cs.rd
+	rows := cs.shadow[t.Name]
+	target := core.Pick(rd, rows)
+	st := cs.styled(&Stmt{Kind: 'U', Table: t.Name})
+	if rd.Chance(25) {
+		st.Alias = "x"
+	}
+	ext := rd.Chance(45)
+	var params []param
+	var prow []cellPlan
+	covered := false
+	for i := range t.Cols[1:] {
+		c := &t.Cols[1+i]
+		if !rd.Chance(60) {
+			continue
+		}
+		p := cs.planCell(c, 0)
+		prow = append(prow, p)
+		covered = covered || (c.Set != nil && !p.null)
+		st.Sets = append(st.Sets, c.Name)
+		if ext && !p.null && rd.Chance(70) {
+			bin := rd.Chance(40)
+			pp := param{bin: bin, data: p.ptext}
+			if bin {
+				pp.data = p.pbin
+			}
+			params = append(params, pp)
+			st.SetV = append(st.SetV, Cell{K: 'P', N: len(params)})
+		} else {
+			st.SetV = append(st.SetV, p.lit)
+		}
+	}
+	if len(st.Sets) == 0 {
+		return
+	}
+	idp := cs.planCell(&t.Cols[0], target.id)
+	if ext && rd.Bool() {
+		params = append(params, param{data: idp.ptext})
+		st.Where = &Cell{K: 'P', N: len(params)}
+	} else {
+		st.Where = &idp.lit
+	}
+	if rd.Chance(25) {
+		st.Ret = cs.genTargets(t, st.Alias, true)
+	}
+	rs, rfmt, ok := cs.write(st, [][]cellPlan{prow}, covered, ext, params, "stmt:update", protoTag(ext))
+	if !ok {
+		return
+	}
+	for _, p := range prow {
+		if p.null {
+			delete(target.vals, p.col.Name)
+		} else {
+			target.vals[p.col.Name] = p.plain
+		}
+	}
+	if len(st.Ret) > 0 {
+		cs.checkOwnerRows(t, st.Alias, st.Ret, rs, []*shadowRow{target}, st.SQL(), rfmt)
+	}
+}
+
+func (cs *caseState) doSelect(t *Tab, bob *Sess) {
+	rd := cs.rd
+	st := cs.styled(&Stmt{Kind: 'S', Table: t.Name})
+	if rd.Chance(30) {
+		st.Alias = "y"
+	}
+	st.Ret = cs.genTargets(t, st.Alias, true)
+	ext := rd.Chance(45)
+	var params []param
+	if rd.Chance(40) {
+		target := core.Pick(rd, cs.shadow[t.Name])
+		idp := cs.planCell(&t.Cols[0], target.id)
+		if ext && rd.Bool() {
+			params = append(params, param{data: idp.ptext})
+			st.Where = &Cell{K: 'P', N: 1}
+		} else {
+			st.Where = &idp.lit
+		}
+	}
+	cs.doSelectStmt(t, st, ext, params, bob)
+}
+
+func (cs *caseState) doSelectStmt(t *Tab, st *Stmt, ext bool, params []param, bob *Sess) {
+	r := cs.r
+	rd := cs.rd
+	cols := cs.targetCols(t, st.Alias, st.Ret)
+	covered := false
+	for _, c := range cols {
+		covered = covered || (c != nil && c.Set != nil)
+	}
+	cs.begin(st, covered, "stmt:select", protoTag(ext))
+	rnd := round{st: st, extended: ext, params: params}
+	if ext {
+		switch rd.Intn(3) {
+		case 0:
+			rnd.rfmt = []int16{1}
+		case 1:
+			for range cols {
+				rnd.rfmt = append(rnd.rfmt, int16(rd.Intn(2)))
+			}
+		}
+	}
+	sent0 := len(cs.w.DB.Sent)
+	cin0, cout0 := cs.a.C.Marks()
+	din0, dout0 := cs.w.DB.In.Len(), cs.w.DB.Out.Len()
+	rs, err := cs.send(cs.a, rnd)
+	if err != nil || len(rs) == 0 || rs[len(rs)-1].Err != "" {
+		r.Fail("session-broken", fmt.Sprintf("SELECT %q failed through the proxy: %v %v (panic: %v)", st.SQL(), err, rs, cs.a.Panic))
+		return
+	}
+	cin1, cout1 := cs.a.C.Marks()
+	res := rs[len(rs)-1]
+	// rows: model of the delivery of every DataRow the database sent
+	sentRows := cs.w.DB.Sent[sent0:]
+	fm := fmtsTok(rnd.rfmt)
+	for i, row := range sentRows {
+		if i >= len(res.Rows) {
+			break
+		}
+		if !ext || len(params) > 0 || true {
+			line := fmt.Sprintf("C04.row %s %s %s %s %s", cs.sch.Token(), kvToks(cs.kv), st.Token(), fm, valsTok(row))
+			if i < 2 { // stateless op: fresh world per row; two rows per statement are enough
+				r.Do(line)
+			}
+			r.Diff(line, "ok "+valsTok(res.Rows[i]))
+		}
+	}
+	r.Do(fmt.Sprintf("C04.stmt %s %s %s %s %s", map[bool]string{false: "q", true: "p"}[ext], cs.sch.Token(), kvToks(cs.kv), st.Token(), "-"))
+	// owner reads the originals
+	var expect []*shadowRow
+	for _, sr := range cs.shadow[t.Name] {
+		if st.Where == nil || whereID(st, params) == sr.id {
+			expect = append(expect, sr)
+		}
+	}
+	own := cs.itemsOf(t, cols)
+	cs.lastItems = own
+	cs.checkRowDescription(t, cols, res, own, st.SQL())
+	cs.checkOwnerRowsFmt(t, st.Alias, st.Ret, res, expect, st.SQL(), rnd.rfmt)
+	// unconfigured table: both directions byte-identical
+	if !t.Configured {
+		r.Check(bytes.Equal(cs.a.C.Out.Bytes()[cout0:cout1], cs.w.DB.In.Bytes()[din0:]), "uncovered-statement-altered", "SELECT on an unconfigured table reached the database altered: "+st.SQL())
+		r.Check(bytes.Equal(cs.a.C.In.Bytes()[cin0:cin1], cs.w.DB.Out.Bytes()[dout0:]), "uncovered-result-altered", "result of a SELECT on an unconfigured table came back altered: "+st.SQL())
+	}
+	// the keyless client never receives a protected plaintext
+	b0, _ := bob.C.Marks()
+	brs, err := cs.send(bob, rnd)
+	if err != nil || len(brs) == 0 {
+		r.Fail("session-broken", fmt.Sprintf("SELECT %q by the keyless client failed: %v (panic: %v)", st.SQL(), err, bob.Panic))
+		return
+	}
+	b1, _ := bob.C.Marks()
+	got := bob.C.In.Bytes()[b0:b1]
+	for _, v := range cs.secrets {
+		if len(v) < 8 {
+			continue
+		}
+		for _, f := range Forms(v) {
+			if bytes.Contains(got, f) {
+				r.Fail("plaintext-to-keyless-client", fmt.Sprintf("client without keys received plaintext %x of a protected column: %s", v, st.SQL()))
+				break
+			}
+		}
+	}
+	// … and uncovered columns reach it unchanged
+	bres := brs[len(brs)-1]
+	for i, sr := range expect {
+		if i >= len(bres.Rows) {
+			break
+		}
+		for j, c := range cols {
+			if c == nil || c.Set != nil || j >= len(bres.Rows[i]) {
+				continue
+			}
+			want, ok := sr.vals[c.Name]
+			gotv := bres.Rows[i][j]
+			if !ok {
+				r.Check(gotv == nil, "uncovered-column-altered", "NULL in an uncovered column came back non-NULL")
+				continue
+			}
+			if gotv == nil {
+				r.Fail("uncovered-column-altered", "uncovered column came back NULL")
+				continue
+			}
+			dec, _ := clientDecode(c.Type.OID(), fmtAt(rnd.rfmt, j), *gotv)
+			r.Check(bytes.Equal(dec, want), "uncovered-column-altered", fmt.Sprintf("uncovered column %s.%s: wrote %x, keyless client read %x", t.Name, c.Name, want, dec))
+		}
+	}
+	_ = sort.Ints
+}
+
+func fieldOID(res *fakepg.Result, c *Col, j int) uint32 {
+	if j < len(res.Fields) {
+		return res.Fields[j].DataTypeOID
+	}
+	return c.Type.OID()
+}
+
+func fmtAt(f []int16, i int) bool {
+	if len(f) == 0 {
+		return false
+	}
+	if len(f) == 1 {
+		return f[0] == 1
+	}
+	return i < len(f) && f[i] == 1
+}
+
+func whereID(st *Stmt, params []param) int {
+	if st.Where == nil {
+		return -1
+	}
+	if st.Where.K == 'P' {
+		return core.Atoi(string(params[st.Where.N-1].data))
+	}
+	return core.Atoi(string(st.Where.B))
+}
+
+func (cs *caseState) checkOwnerRows(t *Tab, alias string, items []string, rs []*fakepg.Result, expect []*shadowRow, sql string, rfmt []int16) {
+	if len(rs) == 0 {
+		return
+	}
+	cols := cs.targetCols(t, alias, items)
+	// the settings of a RETURNING list are collected only when its first DataRow is processed
+	cs.checkRowDescription(t, cols, rs[len(rs)-1], nil, sql)
+	if len(rs[len(rs)-1].Rows) > 0 && t.Configured {
+		cs.lastItems = cs.itemsOf(t, cols)
+	}
+	cs.checkOwnerRowsFmt(t, alias, items, rs[len(rs)-1], expect, sql, rfmt)
+}
+
+// typedOID is the type OID handleRowDescription puts in place of the database's for a column setting.
+func typedOID(s *Setting, dbOID uint32) uint32 {
+	if s == nil {
+		return dbOID
+	}
+	switch s.DType {
+	case "str":
+		return 25
+	case "bytes":
+		return 17
+	}
+	return dbOID
+}
+
+// itemsOf is the per-result-column setting list the proxy remembers for a statement (`query_data_items`).
+func (cs *caseState) itemsOf(t *Tab, cols []*Col) []*Setting {
+	if !t.Configured {
+		return nil
+	}
+	out := make([]*Setting, len(cols))
+	for i, c := range cols {
+		if c != nil {
+			out[i] = c.Set
+		}
+	}
+	return out
+}
+
+// checkRowDescription: the RowDescription the client received differs from the database's only in the type
+// OIDs of typed protected columns of THIS statement.
+func (cs *caseState) checkRowDescription(t *Tab, cols []*Col, res *fakepg.Result, own []*Setting, sql string) {
+	if len(res.Fields) == 0 {
+		return
+	}
+	if !cs.r.Check(len(res.Fields) == len(cols), "rowdescription-altered", fmt.Sprintf("%s: RowDescription with %d fields for %d columns", sql, len(res.Fields), len(cols))) {
+		return
+	}
+	for j, c := range cols {
+		db := uint32(23)
+		if c != nil {
+			db = c.Type.OID()
+		}
+		cur := db
+		if len(own) == len(cols) {
+			cur = typedOID(own[j], db)
+		}
+		got := res.Fields[j].DataTypeOID
+		if got == cur {
+			continue
+		}
+		stale := db
+		if len(cs.lastItems) == len(cols) {
+			stale = typedOID(cs.lastItems[j], db)
+		}
+		if got == stale {
+			cs.r.Fail("rowdescription-stale-settings", fmt.Sprintf("%s: column %d is described with type OID %d (database: %d): the settings remembered from an earlier statement were applied", sql, j, got, db))
+		} else {
+			cs.r.Fail("rowdescription-altered", fmt.Sprintf("%s: column %d is described with type OID %d, expected %d", sql, j, got, cur))
+		}
+	}
+}
+
+// checkOwnerRowsFmt: the owner reads back exactly what was written (every column, protected or not).
+func (cs *caseState) checkOwnerRowsFmt(t *Tab, alias string, items []string, res *fakepg.Result, expect []*shadowRow, sql string, rfmt []int16) {
+	r := cs.r
+	cols := cs.targetCols(t, alias, items)
+	if !r.Check(len(res.Rows) == len(expect), "row-count", fmt.Sprintf("%s: expected %d rows, client got %d", sql, len(expect), len(res.Rows))) {
+		return
+	}
+	for i, sr := range expect {
+		row := res.Rows[i]
+		if !r.Check(len(row) == len(cols), "column-count", fmt.Sprintf("%s: expected %d columns, got %d", sql, len(cols), len(row))) {
+			return
+		}
+		for j, c := range cols {
+			if c == nil {
+				continue
+			}
+			want, ok := sr.vals[c.Name]
+			class := "uncovered-column-altered"
+			if c.Set != nil {
+				class = "owner-read-mismatch"
+			}
+			if !ok {
+				r.Check(row[j] == nil, class, fmt.Sprintf("%s: column %s expected NULL", sql, c.Name))
+				continue
+			}
+			if row[j] == nil {
+				r.Fail(class, fmt.Sprintf("%s: column %s came back NULL, wrote %x", sql, c.Name, want))
+				continue
+			}
+			// a text-typed protected column is delivered as text only if the proxy knew the statement's
+			// settings; the RowDescription the client got says how to read the bytes
+			dec, okd := clientDecode(c.Type.OID(), fmtAt(rfmt, j), *row[j])
+			if c.Set != nil && c.Set.DType == "str" {
+				dec, okd = *row[j], true
+			}
+			r.Check(okd && bytes.Equal(dec, want), class, fmt.Sprintf("%s: column %s.%s wrote %x, owner read %x (wire %x)", sql, t.Name, c.Name, want, dec, *row[j]))
+		}
+	}
+}
